@@ -356,6 +356,27 @@ func checkC14(r *Run) {
 			return descgen.Rename(e, n+"emptyentries")
 		})
 	}
+	// entries that name no field but look like patterns over real ones (shell metacharacters, an unclosed bracket)
+	for _, n := range []string{"k5", "k9"} {
+		n := n
+		reqs = append(reqs, func() *descgen.Entry {
+			e := descgen.CuratedByName(n)
+			occ := descgen.Occurrences(e.File, e.Cfg.Types)
+			pat := func(i int) []string {
+				p := occ[(i*11+3)%len(occ)].Path
+				d := strings.LastIndex(p, ".")
+				leaf := p[d+1:]
+				return []string{p[:d+1] + "[", p[:d+1] + leaf[:1] + "*" + leaf[len(leaf)-1:], p[:d+1] + "?" + leaf[1:], p[:d+1] + "*", "*." + leaf, p + "[0]"}
+			}
+			c := e.Cfg
+			c.ExcludeFields = append(c.ExcludeFields, pat(1)...)
+			c.ComputedFields = append(c.ComputedFields, pat(2)...)
+			c.RequiredFields = append(c.RequiredFields, pat(3)...)
+			c.SensitiveFields = append(c.SensitiveFields, pat(4)...)
+			e.Tags = append(e.Tags, "pattern-like-dead-entries")
+			return descgen.Rename(e, n+"patternentries")
+		})
+	}
 	nr := r.pick(4, 90)
 	for i := 0; i < nr; i++ {
 		i := i
